@@ -30,10 +30,36 @@ CATALOGUE = {
 }
 
 
+# the primary categorical parameter of the kinds that have one: every (kind, value) is a stratum with its own search,
+# because a single sampled_from over all of them is served very unevenly by Hypothesis' mutation-based generation
+# (measured: 5 vs 39 cases for two positions of one kind in 4000 examples)
+PRIMARY = {
+    'rows-unequal': ('how', ['one', 'fewer', 'more']),
+    'long-ident-ok': ('pos', ['name', 'set', 'units', 'ident-value', 'channel-name', 'origin-name']),
+    'long-ident-bad': ('pos', ['name', 'set', 'units', 'ident-value', 'channel-name', 'origin-name']),
+    'non-ascii': ('pos', ['name', 'set', 'sul-id', 'hdr-id', 'units', 'text-value', 'ident-value', 'nf-str',
+                          'channel-name']),
+    'window': ('how', ['to>rows', 'from<0', 'inverted', 'from>=rows', 'to<0', 'equal']),
+    'ocs': ('how', ['below-vrl', 'fraction', 'negative', 'string']),
+    'int-range-list': ('where', ['axis-coordinates', 'parameter-values', 'parameter-dimension', 'comment-none']),
+}
+VARIANTS = [(k, None) for k in sorted(CATALOGUE) if k not in PRIMARY] + \
+           [(k, v) for k in sorted(PRIMARY) for v in PRIMARY[k][1]]
+
+
 @st.composite
-def invalidation(draw):
-    k = draw(st.sampled_from(sorted(CATALOGUE)))
+def invalidation(draw, fixed=None):
+    k = fixed[0] if fixed else draw(st.sampled_from(sorted(CATALOGUE)))
     inv = {'k': k, 'sel': draw(st.integers(0, 1000))}
+    inv = draw(_invalidation_params(inv))
+    if fixed and fixed[1] is not None:
+        inv[PRIMARY[k][0]] = fixed[1]
+    return inv
+
+
+@st.composite
+def _invalidation_params(draw, inv):
+    k = inv['k']
     if k == 'rows-unequal':
         inv['how'] = draw(st.sampled_from(['one', 'fewer', 'more']))
     elif k == 'dtype':
@@ -87,13 +113,13 @@ def invalidation(draw):
 
 
 @st.composite
-def strategy(draw):
+def strategy(draw, fixed=None):
     prof = Profile(vrl=[256, 8192], max_frames=2, max_channels=3, max_rows=8, max_width=3,
                    meta_kinds=('comment', 'zone', 'equipment', 'parameter', 'long_name', 'tool'), max_meta=4,
                    attr_routes=('kw', 'dict', 'later'), noformat=1, nf_payload_max=30, units=True)
     spec = draw(file_specs(prof))
     n = draw(st.sampled_from([1, 1, 1, 2, 3]))
-    spec['inv'] = [draw(invalidation()) for _ in range(n)]
+    spec['inv'] = [draw(invalidation(fixed))] + [draw(invalidation()) for _ in range(n - 1)]
     return spec
 
 
@@ -332,7 +358,7 @@ def add_second_channel(spec, frame_index, rows, new_op=None):
 class C12(Property):
     id = 'C12'
     number = 12
-    technique = ("Hypothesis-generated valid specifications combined with 1-3 invalidations from a catalogue of 22 kinds; "
+    technique = ("Hypothesis-generated valid specifications combined with 1-3 invalidations from a catalogue of 30 kinds (62 kind x position variants, each with its own search so that none depends on luck); "
                  "oracle: the outcome is an exception, or the file strictly decodes and matches the specification; for "
                  "inputs without a faithful representation a normal return is itself the violation")
     rule = ("cases: valid base specification (frames, metadata, no-format data) + invalidations drawn from: unequal row "
@@ -346,7 +372,12 @@ class C12(Property):
 
     def searches(self, ctx):
         n = 4000 if ctx.tier == 'quick' else 50000
-        return [('invalidated', strategy(), n // ctx.nshards)]
+        # every variant is searched by a quarter of the shards (a run of a handful of examples would spend a large part
+        # of its budget on Hypothesis' minimal first example, which is the same in every shard)
+        share = max(1, ctx.nshards // 4)
+        per = max(4, n // len(VARIANTS) // share)
+        return [(f"inv:{k}" + (f":{v}" if v else ''), strategy((k, v)), per)
+                for i, (k, v) in enumerate(VARIANTS) if ctx.nshards < 4 or (ctx.shard - i) % 4 == 0]
 
     def run(self, case, ctx):
         dw.check_import_location()
@@ -397,9 +428,9 @@ class C12(Property):
                     add_second_channel(spec, fidx, arg)
             except (IndexError, ZeroDivisionError, KeyError, ValueError, TypeError, AttributeError):
                 continue       # an earlier invalidation removed what this one needs
-            kinds.append(inv['k'] + (':' + str(inv.get('pos') or inv.get('how')) if any(x in inv for x in ('pos', 'how'))
-                                     else ''))
-        labels = ['inv:' + k.split(':')[0] for k in kinds]
+            kinds.append(inv['k'] + (':' + str(inv.get('pos') or inv.get('how') or inv.get('where'))
+                                     if any(x in inv for x in ('pos', 'how', 'where')) else ''))
+        labels = ['inv:' + k.split(':')[0] for k in kinds] + ['var:' + k for k in kinds if ':' in k]
         if not kinds:
             return Result([], ['no-invalidation-applied'], False, 'skipped')
         if any(k.startswith('rows-unequal') for k in kinds) and not rows_really_unequal(spec):
@@ -474,8 +505,9 @@ class C12(Property):
 
     def self_check(self, merged, tier):
         missing = [k for k in CATALOGUE if not merged['labels'].get('inv:' + k)]
+        missing += [f"{k}:{v}" for k, v in VARIANTS if v and not merged['labels'].get(f"var:{k}:{v}")]
         if missing:
-            return [f"invalidation kinds never exercised: {missing}"]
+            return [f"invalidation kinds / variants never exercised: {missing}"]
         return []
 
 
